@@ -62,18 +62,34 @@ fn stage(prev: Dyn, st: &Value) -> Dyn {
     }
 }
 
-pub fn run_pipe(case: &Value) -> Value {
-    let src = parse_src(&case["ins"][0], num);
-    let len = case["ins"][0]["s"].as_array().unwrap().len();
-    let extra = case["extra"].as_u64().unwrap_or(2) as usize;
-    let stages = case["stages"].as_array().expect("stages");
+/// a source under its unary stages, and a bound on the polls it can need
+fn side(src: &Value, stages: &Value) -> (Dyn, usize) {
+    let len = src["s"].as_array().unwrap().len();
     let mut expand = 1usize;
-    let mut p = Dyn(Box::new(src));
-    for st in stages {
+    let mut p = Dyn(Box::new(parse_src(src, num)));
+    for st in stages.as_array().expect("stages") {
         if st["op"] == "flat_map" {
             expand *= 3;
         }
         p = stage(p, st);
     }
-    drive(p, extra, (len + 2) * expand * 2 + extra + 8)
+    (p, (len + 2) * expand * 2)
+}
+
+pub fn run_pipe(case: &Value) -> Value {
+    let extra = case["extra"].as_u64().unwrap_or(2) as usize;
+    let (a, ca) = side(&case["ins"][0], &case["stages"]);
+    let Some(bin) = case["bin"].as_str() else {
+        return drive(a, extra, ca + extra + 8);
+    };
+    // a binary combinator over two pipelines; FusedPull inputs are obtained with fuse()
+    let (b, cb) = side(&case["ins"][1], &case["stages_b"]);
+    let cap = ca + cb + extra + 8;
+    match bin {
+        "zip" => drive(a.zip(b), extra, cap),
+        "chain" => drive(a.fuse().chain(b), extra, cap),
+        "zip_longest" => drive(a.fuse().zip_longest(b.fuse()), extra, cap),
+        "cross_singleton" => drive(a.cross_singleton(b), extra, cap),
+        o => panic!("bad bin {o}"),
+    }
 }
